@@ -283,6 +283,15 @@ Definition o14_step (prev : mgr) (s : ostep) : bool :=
       let rates := map (fun kp => (fst kp, match (if seeder then p_drate (snd kp) else p_urate (snd kp)) with Some r => r | None => 0 end))
                        (m_peers prev) in
       (m_round next =? (m_round prev + 1) mod MAX_OPTIMISTIC_ROUNDS) &&
+      (* the optimistic unchoke: drawn in round 0 only, one peer among those we choked that are interested (none if there
+         is none); in the other rounds, and when nothing rotates, the marks stay as they were *)
+      (let opt_of (m : mgr) := map fst (filter (fun kp => p_optimistic (snd kp)) (m_peers m)) in
+       if all_rates && ((m_round prev + 1) mod MAX_OPTIMISTIC_ROUNDS =? 0) then
+         match optimistic_candidates prev with
+         | [] => list_eqb N.eqb (opt_of next) (opt_of prev)
+         | _ => optimistic_pick_ok prev (opt_of next)
+         end
+       else list_eqb N.eqb (opt_of next) (opt_of prev)) &&
       (if all_rates then
          match s_bc s with
          | [BOwnState fl] => bound14 next && policy14 prev next rates fl
